@@ -196,6 +196,8 @@ fn gen_inputs(r: &mut SplitMix64, methods: &[String], tier: u32) -> Inputs {
             _ => base,
         }
     };
+    // a few values with all 15-17 significant digits (the text <-> f64 round trip through the saved file)
+    let (lat_v, lon_v) = if r.chance(6) { (r.f64_in(-55.0, 55.0, 15), r.f64_in(-180.0, 180.0, 14)) } else { (lat_v, lon_v) };
     let lat_s = respell(r, lat_v);
     let lon_s = respell(r, lon_v);
     let gmt_s = respell(r, gmt_v);
